@@ -87,20 +87,27 @@ def nat_one(h, nat, vals):
 
 
 def nat_batch(nat, jobs):
-    """jobs: [(h, vals)] -> [O]; one process for all"""
-    text = "\n".join(" ".join(str(a) for a in h.cmd(vals)) for h, vals in jobs) + "\n"
-    p = common.run([nat, "gck", "batch"], stdin=text, timeout=600, check=False)
-    chunks = p.stdout.split("--\n")
-    if len(chunks) < len(jobs) + 1:
-        raise Inconclusive("verif-native gck batch answered %d of %d commands: %s" % (len(chunks) - 1, len(jobs), p.stderr[-300:]))
+    """jobs: [(h, vals)] -> [O]; one process for all.  A command that does not terminate ends the process
+    (it prints hang=1 first): its partial answer is taken and the rest is sent to a new process."""
     outs = []
-    for (h, vals), ch in zip(jobs, chunks):
-        r = {}
-        for ln in ch.splitlines():
-            if "=" in ln:
-                k, v = ln.split("=", 1)
-                r[k] = v
-        outs.append(parse_out(h, r))
+    todo = list(jobs)
+    while todo:
+        text = "\n".join(" ".join(str(a) for a in h.cmd(vals)) for h, vals in todo) + "\n"
+        p = common.run([nat, "gck", "batch"], stdin=text, timeout=900, check=False)
+        chunks = p.stdout.split("--\n")
+        done = chunks[:-1]
+        if len(done) < len(todo):
+            if "hang=1" not in chunks[-1] and "panic=" not in chunks[-1]:
+                raise Inconclusive("verif-native gck batch died on command %r: %s" % (todo[len(done)][0].cmd(todo[len(done)][1]), p.stderr[-300:]))
+            done.append(chunks[-1])
+        for (h, vals), ch in zip(todo, done):
+            r = {}
+            for ln in ch.splitlines():
+                if "=" in ln:
+                    k, v = ln.split("=", 1)
+                    r[k] = v
+            outs.append(parse_out(h, r))
+        todo = todo[len(done):]
     return outs
 
 
